@@ -22,7 +22,7 @@ def mk_cfg(ctx):
 def run(ctx):
     global _CFG
     _CFG = mk_cfg(ctx)
-    depth = 7 if ctx.thorough else 6
+    depth = 9 if ctx.thorough else 7
     res = bfs(run_h, depth, ctx)
     cov = {
         "states": res["states"], "transitions": res["transitions"],
